@@ -323,6 +323,14 @@ def run_random(asm, acc, seed, idx, trace=False):
     if idx % 400 == 399:
         items = many_program(rng)
         acc['ctr']['programs_with_over_a_thousand_labels'] += 1
+    if idx % 5 == 2:
+        # label names that are not ASCII words (identifiers in the sense of the language the assembler is written in all the same)
+        pool = ['\u00e4hnlich', '\u03c0', '\u0446\u0438\u043a\u043b', 'gr\u00f6\u00dfe', '\u03a9mega', '\u00e9t\u00e9', '\u00f1u', '\u0142oop', '_\u00fc', 'x\u00e9']
+        names = [it['name'] for it in items if it['k'] == 'label']
+        rng2 = random.Random('c03-names-%d' % idx)
+        mp = {n: rng2.choice(pool) + ('%d' % k if k >= 0 else '') for k, n in enumerate(dict.fromkeys(names))}
+        items = P.rename_labels(items, mp)
+        acc['ctr']['programs_with_non_ascii_label_names'] += 1
     lines, eol, preseed = presentation(rng, items, idx)
     core.see(acc, 'presentations', ['canonical', 'syntax-variants', 'reused-label-table'][min(idx % 6, 3) if idx % 6 < 3 else 0])
     for compress in (False, True):
